@@ -11,7 +11,27 @@ var mapsOnly = instr.Opts{Maps: true}
 var full = instr.Opts{Maps: true, Yields: true, Sync: true, Time: true, Access: true}
 var yieldsAndClock = instr.Opts{Yields: true, Time: true}
 
+var yieldsOnly = instr.Opts{Yields: true}
+var mainPkg = instr.Opts{Maps: true, Yields: true, Sync: true, Time: true, Access: true, Main: true, MainPkgName: "idmain"}
+
 var all = map[string]*runner.Spec{
+	"C19": {
+		ID: "C19", Harness: "c19", Level: "exploration",
+		Rule: "one run = one seeded set of 0..12 real files in a temporary directory (licensed, unlicensed, two licenses with copyright lines, scenario files, empty, no trailing newline, CRLF, lines of 70 KB / 1 MB before, inside or after a match; at backend level sometimes a path that does not exist), flags (-headers, -tasks from {1,2,3,n,n+5,1000}, include_text, with/without context, a cancellation at a drawn step in 1 of 10 runs) and one seeded schedule of the worker goroutines, the closer goroutine and the collector. 7 of 8 runs drive the backend API, 1 of 8 runs the whole main() in-process. Non-trivial: at least 3 tasks and at least 2 context switches; distinct = distinct hash of the context-switch sequence combined with files and flags.",
+		Assume: []string{
+			"expected output is Match(file bytes) on a shared default classifier computed by the harness outside the schedule; Match itself is not validated here",
+			"order among entries is not compared (the statement does not fix it)",
+			"races on memory that does not feed the compared output (for instance the named result errors in the timeout path) are counted as observations, not violations",
+			"process boundary, os.Exit, log.Fatal and stdout are stubbed in-process at main level",
+		},
+		QuickRuns: 2000, ThorRuns: 80000, QuickCap: 420, ThorCap: 2400,
+		Instrument: func(sc *runner.Scratch) error {
+			_, err := sc.Instrument(runner.InstrumentPlan{
+				V2: map[string]instr.Opts{"": yieldsOnly, "tools/identify_license": mainPkg, "tools/identify_license/backend": full, "tools/identify_license/results": full},
+			})
+			return err
+		},
+	},
 	"C14": {
 		ID: "C14", Harness: "c14", Level: "exploration",
 		Rule: "one run = one seeded workload (population mode lazy via AddValue or precomputed via an in-process serializer archive loaded by licenseclassifier.New; 1..6 known values: small real license texts, synthetic 5..60-word texts, derived near-duplicates; 1..4 queries; 2..6 caller tasks with 1..4 operations each from MultipleMatch/NearestMatch/AddValue incl. duplicate keys) executed under one seeded scheduler (random / sticky / PCT, yield budgets, optional clock stalls) that also schedules the goroutines the library starts itself. Non-trivial: at least 3 tasks and at least 2 context switches; distinct = distinct hash of the context-switch sequence combined with the workload.",
